@@ -84,11 +84,12 @@ def parse_rows(lines):
     rows = []
     for line in lines:
         addr_txt = line[1:5]
-        try:
-            addr = int(addr_txt, 16)
-        except ValueError:
-            addr = None
-        rows.append((addr, line[6:16].strip(), line))
+        # a statement that has no address (it emits nothing behind a last byte at $FFFF) is listed with an empty address
+        # field, which shifts the other columns: the field counts only when it is four hex digits
+        if len(addr_txt) == 4 and all(c in "0123456789ABCDEFabcdef" for c in addr_txt) and line[:1] == "$":
+            rows.append((int(addr_txt, 16), line[6:16].strip(), line))
+        else:
+            rows.append((None, "", line))
     return rows
 
 
